@@ -809,20 +809,22 @@ static void refKeywordBody(RefState& s, int sec, const KwOp& k) {
             if (!DBL.count(r.a)) continue;
             const auto& info = DBL.at(r.a);
             refGetD(s, r.a);
-            const auto reg = refRegion(s, r.rs);
+            // code as fixed by bf5bceae1: the source array is fetched (created) BEFORE the region is looked at;
+            // an unsupported source name is rejected whether or not the region has an active cell
             const bool srcMissing = DBL.count(r.b) && !s.d.count(r.b);
+            if (!DBL.count(r.b)) throw RefErr{};
+            const auto src = refGetD(s, r.b);
+            const auto reg = refRegion(s, r.rs);
             const bool emptyReg = countRegionRec(s, "OPERATER", reg, r.rv);
             if (RSTAT && srcMissing) {
                 bool anyGlobal = false;
                 for (int g = 0; g < s.n(); ++g) anyGlobal = anyGlobal || reg[g].v == r.rv;
-                rcount(!emptyReg ? "d.operater.source-missing.region-nonempty(source-created)"
-                       : anyGlobal ? "d.operater.source-missing.region-empty-among-active-only(source-not-created)"
-                                   : "d.operater.source-missing.region-empty-everywhere(source-not-created)");
+                rcount(!emptyReg ? "d.operater.source-missing.region-nonempty"
+                       : anyGlobal ? "d.operater.source-missing.region-empty-among-active-only"
+                                   : "d.operater.source-missing.region-empty-everywhere");
             }
             if (emptyReg) continue;
             s.regionTouched.insert(r.a);
-            if (!DBL.count(r.b)) throw RefErr{};
-            const auto src = refGetD(s, r.b);
             auto& a = refGetD(s, r.a);
             const bool check = r.fn == "MULTIPLY" || r.fn == "POLY";
             const double al = (r.fn == "ADDX" || r.fn == "MAXLIM" || r.fn == "MINLIM") ? si(info, r.val) : r.val;
@@ -1912,10 +1914,7 @@ int main(int argc, char** argv) {
             const std::string deck = deckText(c);
             const std::string key = "case" + std::to_string(j);
             const Outcome real = runReal(deck, c.nx * c.ny * c.nz);
-            static const std::string OPSKIP = "d.operater.source-missing.region-empty-among-active-only(source-not-created)";
-            const long opSkipBefore = stats[OPSKIP];
             const Outcome ref = runRefCounting(stats, c);
-            const bool operaterSkippedSourceCreation = stats[OPSKIP] > opSkipBefore;
             // (1) sequential application on the global grid
             const std::string a = showOutcome(real), b = showOutcome(ref);
             if (a != b) {
@@ -1945,14 +1944,6 @@ int main(int argc, char** argv) {
             for (int sct = 0; sct < 5; ++sct) for (const auto& k : c.sec[sct])
                 if (k.type == KT::SREG || k.type == KT::OPRR) for (const auto& r : k.recs) if (isGlob(r.a)) regionOnGlobal = true;
             if (rf.ok && !real.ok && regionOnGlobal) { stats["inactive.verdict-waived-region-on-global-storage"]++; continue; }
-            // Finding 6 (design.d/C12.md, reported, candidate patch design.d/C12.operater-source.patch): handle_operateR
-            // creates its source array only when the region has an ACTIVE cell, so a later ADD/MULTIPLY/MINVALUE/
-            // MAXVALUE/COPY on that array ("must already exist") is accepted with all cells active and rejected with
-            // the ACTNUM.  The model and the reference interpreter follow the code; only this verdict clause is
-            // waived, and only for programs in which the reference interpreter saw exactly that situation (an
-            // OPERATER record on a region that is empty among the active cells but not among all cells, with a
-            // source array that is not stored yet).  Clause (1) and the value comparison stay in force.
-            if (rf.ok && !real.ok && operaterSkippedSourceCreation) { stats["inactive.verdict-waived-operater-source-not-created"]++; continue; }
             if (rf.ok && !real.ok) {
                 vh::spit(outdir + "/" + key + ".DATA", deck);
                 log.fail("inactive.verdict." + key, "accepted with all cells active but rejected with ACTNUM; deck=" + outdir + "/" + key + ".DATA");
